@@ -183,7 +183,7 @@ def strat(kind, api):
 
 def subchecks(tier):
     big = tier == "thorough"
-    subs = [Sub(f"api/{k}", body_api, strategy=strat(k, True), n=20_000 if big else 800, shards=8 if big else 1)
+    subs = [Sub(f"api/{k}", body_api, strategy=strat(k, True), n=20_000 if big else 2000, shards=8 if big else 2)
             for k in ("state1", "shutter", "thermostat")]
     subs += [Sub(f"direct/{k}", body_direct, strategy=strat(k, False), n=200_000 if big else 1500, shards=8 if big else 1)
              for k in ("state1", "shutter", "thermostat", "login")]
